@@ -61,6 +61,9 @@ def instances(tier, seed):
         add(kind='signal', order=2, method=method, N=2, grid=fam.G_UNI, T=('num', Fr(2)), refine=2, der=True)
         add(kind='signal', order=2, method=method, N=3, grid=fam.G_GEO_LOC, T=('free', Fr(3, 2)), refine=None)
         add(kind='signal', order=1, method=method, N=2, grid=fam.G_UNI, T=('num', Fr(2)), refine=None, der=True)
+        # several integrator steps per control interval: the derivative signal is evaluated in the control interval the step belongs to
+        add(kind='signal', order=2, method=method, N=2, M=2, grid=fam.G_UNI, T=('num', Fr(2)), refine=None, der=True)
+        add(kind='signal', order=3, method=method, N=3, M=[3, 2][method == 'DC'], grid=fam.G_GEO_LOC, T=('free', Fr(3, 2)), refine=2, der=True)
     # bspline signals INSIDE the dynamics next to other parameters / variables of the stage (layout of the integrator's parameter vector)
     for what in ('parameter', 'variable'):
         for N, grid, T in ((3, fam.G_UNI, ('num', Fr(2))), (2, fam.G_GEO_LOC, ('free', Fr(3, 2)))):
@@ -241,7 +244,7 @@ def run_signal(item):
                 ocp.subject_to(ocp.at_t0(x) == 0)
                 if dsig is not None:
                     ocp.subject_to(dsig <= 2)
-                ocp.method(MultipleShooting(N=N, grid=grid) if method == 'MS' else DirectCollocation(N=N, grid=grid, degree=2))
+                ocp.method(MultipleShooting(N=N, M=item.get('M', 1), grid=grid) if method == 'MS' else DirectCollocation(N=N, M=item.get('M', 1), grid=grid, degree=2))
             ocp.solver('ipopt')
             if method == 'SM':
                 ts, ss = ocp.sample(sig, grid='control', refine=refine)
